@@ -91,7 +91,35 @@ TRUSTED = ["IEEE-754 binary64 / libm (pow, exp, sqrt) behave the same in CPython
            "model writes `{ ind with genes := .. }`, so the C10.*_in_place theorems hold by construction of the "
            "model (they only add that lengths and the untouched fields are kept) and cannot express a returned copy",
            "harness/tape.py forcing of random.random / random.gauss (gauss(mu, sigma) returns mu + z*sigma for "
-           "the forced standard-normal value z, as CPython's random.gauss does)"]
+           "the forced standard-normal value z, as CPython's random.gauss does)",
+           "translator tie: the rendering rules of harness/py2lean_c10.py (its docstring; the expression rules of harness/py2lean.py it "
+           "re-uses) and the prelude Core/GenPreludeC10.lean are trusted; parameters are typed by a signature table (individual = list "
+           "of floats with an optional .strategy list, low / up / mu / sigma = float or sequence of floats); distinct arguments are "
+           "distinct list objects with copy semantics (aliases, numpy views, array.array stay with the correspondence); float "
+           "exceptions (division by 0.0, overflow) are not rendered - mutESLogNormal on an empty individual is therefore outside "
+           "the tie; random.random() / random.gauss(..) read the next entry of the tape of recorded results, the interface of "
+           "Core/RealOps.lean"]
+def translate(repo):
+    """translator tie (lib._translated_obligations): Lean definitions regenerated from `repo`'s current source
+    (harness/py2lean_c10.py) + the committed theorems `Gen.<f> = RealOps.<f>` of lean/DeapModel/GenEq/C10.lean.tmpl"""
+    import json
+    import os
+    import lib
+    from props import c10_translate
+    tr = c10_translate.translate(repo)
+    try:
+        os.makedirs(os.path.join(lib.OUT, "evidence"), exist_ok=True)
+        with open(os.path.join(lib.OUT, "evidence", "C10.translated.json"), "w") as fh:
+            json.dump({"definitions": len(tr["definitions"]), "theorems": len(tr["theorems"]),
+                       "refused": len(tr["refused"]), "problems": tr["problems"],
+                       "functions": [dict(file=f, name=n, status=st, detail=d) for f, n, st, d in tr["table"]],
+                       "theorem_names": tr["theorems"]}, fh, indent=1)
+            fh.write("\n")
+    except OSError:
+        pass
+    return tr
+
+
 ASSUMPTIONS = ["genes are finite doubles inside [low, up]; low < up, magnitudes and widths between 1e-6 and 1e6; "
                "eta in [0,1000]; alpha in [0,2]; indpb in [0,1]; random.random() returns a multiple of 2^-53 in "
                "[0,1); |random.gauss(0,1)| <= 8.57",
